@@ -146,6 +146,7 @@ func checkC34(p *Prog, r *Result, tier string) {
 	r.Explanation = "R1 a variable declared in an enclosing function and WRITTEN inside a closure that runs in its own goroutine (go statement, worker-pool Invoke, SentryGo; nested synchronous closures and deferred closures of it included) is reported when that closure is spawned in a loop outside of which the variable lives — several instances then write the same variable — unless the write lies in a mutex region or goes to a slice element; " +
 		"R3 a variable of the spawning function that the goroutine writes is not used by the spawning function after the spawn unless a channel receive, a Wait or a lock lies in between (the goroutine and its spawner otherwise access it concurrently); " +
 		"R4 a map field that an engine implementation writes into through its options parameter is assigned a fresh map (make, literal, nil) wherever calcium builds those options, never a map of the shared request; " +
+		"R6 no goroutine calls, on a variable captured from outside, a pointer-receiver method that writes a plain map field (or appends to a slice field) of its receiver outside a mutex region; " +
 		"R5 no goroutine started in a loop captures that loop's iteration variables (go.mod language version < 1.22); " +
 		"R2 a field of the receiver of a service type whose methods run concurrently (gRPC server, cluster, store, resource manager, discovery, watcher) is written outside constructors only inside a mutex region or through atomic/sync types. " +
 		"Both are necessary conditions of race freedom for the shapes they describe. This is a lint for four shapes: silence is not race freedom (no pointer analysis is available: heap objects reached through pointers, maps shared through fields and reads racing with writes are out of reach)."
@@ -423,6 +424,115 @@ func checkC34(p *Prog, r *Result, tier string) {
 		}
 	}
 	r.Analysed["spawned_closures"] = nSpawn
+
+	// ---- R6: a goroutine does not call, on an object it shares with other goroutines (a variable captured from outside),
+	// a method that writes a plain Go map (or appends to a slice) held in a field of its receiver without a mutex
+	{
+		// methods of module types that mutate a map/slice field of their pointer receiver outside a mutex region
+		mutators := map[*types.Func]string{}
+		for _, fn := range p.sortedFuncs() {
+			if fn.Decl == nil || fn.Decl.Recv == nil || fn.Obj == nil || fn.Body == nil {
+				continue
+			}
+			rv := recvObj(fn)
+			if rv == nil {
+				continue
+			}
+			if _, isPtr := rv.Type().(*types.Pointer); !isPtr {
+				continue
+			}
+			fn.inspectBody(func(x ast.Node) bool {
+				as, ok := x.(*ast.AssignStmt)
+				if !ok {
+					return true
+				}
+				for i, l := range as.Lhs {
+					switch y := unparen(l).(type) {
+					case *ast.IndexExpr:
+						// recv.F[k] = v with F a plain map
+						sel, ok := unparen(y.X).(*ast.SelectorExpr)
+						if !ok || fn.objOf(sel.X) != rv {
+							continue
+						}
+						if t := fn.typeOf(sel); t != nil {
+							if _, isMap := t.Underlying().(*types.Map); isMap && !underMutex(fn, as) {
+								mutators[fn.Obj] = "writes the map " + exprStr(sel) + " at " + p.pos(as)
+							}
+						}
+					case *ast.SelectorExpr:
+						// recv.F = append(recv.F, …)
+						if fn.objOf(y.X) != rv || i >= len(as.Rhs) {
+							continue
+						}
+						if c, ok := unparen(as.Rhs[i]).(*ast.CallExpr); ok && isBuiltinCall(fn, c, "append") && !underMutex(fn, as) {
+							mutators[fn.Obj] = "appends to " + exprStr(y) + " at " + p.pos(as)
+						}
+					}
+				}
+				return true
+			})
+		}
+		r.Analysed["unsynchronised_receiver_mutators"] = len(mutators)
+		n6 := 0
+		for _, K := range funcs {
+			if K.Lit == nil || g.roles[K].kind != "async" {
+				continue
+			}
+			bad := ""
+			var visit func(fn *FuncNode)
+			visit = func(fn *FuncNode) {
+				fn.inspectBody(func(x ast.Node) bool {
+					c, ok := x.(*ast.CallExpr)
+					if !ok || fn.Callee(c) == nil {
+						return true
+					}
+					why, isMut := mutators[fn.Callee(c)]
+					if !isMut {
+						return true
+					}
+					sel, ok := unparen(c.Fun).(*ast.SelectorExpr)
+					if !ok {
+						return true
+					}
+					id, ok := unparen(sel.X).(*ast.Ident)
+					if !ok {
+						return true
+					}
+					v, ok := fn.objOf(id).(*types.Var)
+					if !ok || v.IsField() {
+						return true
+					}
+					// captured from outside the goroutine?
+					if K.Lit.Pos() <= v.Pos() && v.Pos() < K.Lit.End() {
+						return true
+					}
+					if v.Parent() == nil || v.Pkg() == nil || v.Parent() == v.Pkg().Scope() {
+						return true
+					}
+					if underMutex(fn, c) {
+						return true
+					}
+					bad = fmt.Sprintf("`%s` at %s: %s %s", exprStr(c.Fun), p.pos(c), fullObjName(fn.Callee(c)), why)
+					return true
+				})
+				for _, l := range fn.Lits {
+					k := g.roles[l].kind
+					if k == "sync" || k == "defer" || k == "lockcb" || k == "bound" {
+						visit(l)
+					}
+				}
+			}
+			visit(K)
+			n6++
+			key := K.Name + " / no unsynchronised mutating method call on an object shared with other goroutines"
+			if bad != "" {
+				r.bad("R6", key, p.pos(K.Lit), bad+" — `"+"the receiver is a variable captured from outside the goroutine, so the goroutines of one operation (and the function that started them) mutate and read the same map without synchronisation (concurrent map writes are fatal)")
+			} else {
+				r.ok("R6", key, p.pos(K.Lit), "")
+			}
+		}
+		r.min("R6", 20)
+	}
 
 	// ---- R5: a goroutine started inside a loop does not capture the loop's variables (language version < 1.22: the loop
 	// writes the one shared variable while the goroutine reads it — a data race, and the goroutine sees a later element)
